@@ -15,6 +15,7 @@ func init() { extraGens = append(extraGens, genPrec, genParserTables) }
 func genPrec() {
 	p := pkgs["ast"]
 	var entries []string
+	read := map[int64]int64{}
 	found := false
 	for _, f := range p.files {
 		ast.Inspect(f, func(n ast.Node) bool {
@@ -38,6 +39,7 @@ func genPrec() {
 					fatal("Precedences: cannot evaluate entry")
 				}
 				entries = append(entries, fmt.Sprintf("(%d%%Z, %d%%Z)", k, v))
+				read[k] = v
 			}
 			return false
 		})
@@ -48,12 +50,14 @@ func genPrec() {
 	var b strings.Builder
 	b.WriteString("(* ast.Precedences: (token type ordinal, priority) in source order *)\n")
 	fmt.Fprintf(&b, "Definition precedences : list (Z * Z) :=\n  [%s].\n", strings.Join(entries, ";\n   "))
+	checkPrec(read)
 	emit("Gen_Prec.v", b.String())
 }
 
 func genParserTables() {
 	p := pkgs["parser"]
 	tabs := map[string][]string{}
+	read := map[string]map[int64]string{"registerPrefix": {}, "registerInfix": {}, "registerPostfix": {}}
 	for _, f := range p.files {
 		ast.Inspect(f, func(n ast.Node) bool {
 			ce, ok := n.(*ast.CallExpr)
@@ -77,6 +81,7 @@ func genParserTables() {
 				fatal("%s: parse function is not a method value", name)
 			}
 			tabs[name] = append(tabs[name], fmt.Sprintf("(%d%%Z, %q%%string)", tv, fn.Sel.Name))
+			read[name][tv] = fn.Sel.Name // a later call overrides an earlier one
 			return true
 		})
 	}
@@ -89,5 +94,6 @@ func genParserTables() {
 		fmt.Fprintf(&b, "(* %s calls of parser.New, in source order (a later call overrides an earlier one) *)\n", k)
 		fmt.Fprintf(&b, "Definition %s : list (Z * string) :=\n  [%s].\n\n", nm, strings.Join(tabs[k], ";\n   "))
 	}
+	checkParserTables(read)
 	emit("Gen_ParserTables.v", b.String())
 }
